@@ -4,6 +4,7 @@ import (
 	"database/sql"
 	"encoding/json"
 	"fmt"
+	"math"
 	"os"
 	"os/exec"
 	"runtime"
@@ -341,6 +342,32 @@ func runC20(c *Ctx) {
 		histories++
 	}
 	r.Count("forward_call_histories_before_backward_calls", int64(histories))
+	// ---- printing and translating back agree, also for integers far
+	// outside the named levels (a table lookup may narrow the value)
+	{
+		var wide []int64
+		for _, base := range []int64{0, 1 << 8, 1 << 16, 1 << 31, 1 << 32, -(1 << 32), 1 << 40, 1 << 62, math.MinInt64, math.MaxInt64 - 8} {
+			for k := int64(-2); k <= 8; k++ {
+				wide = append(wide, base+k)
+			}
+		}
+		for _, w := range wide {
+			lvl := dblib.ASEIsolationLevel(w)
+			g, st := lvl.ToGo(), lvl.String()
+			r.Eval(1)
+			if st != g.String() {
+				r.Violate("backward/print-disagrees-with-translation", fmt.Sprintf("ASEIsolationLevel(%d): String() = %q, but it translates back to %v (%q)", w, st, int(g), g.String()), map[string]int64{"ase": w})
+				break
+			}
+			if w < 0 || w > 8 {
+				if _, isNamed := map[sql.IsolationLevel]bool{sql.LevelDefault: true}[g]; !isNamed {
+					r.Violate("backward/unnamed-level-translated", fmt.Sprintf("ASEIsolationLevel(%d) is none of the named levels but translates back to %v", w, g), map[string]int64{"ase": w})
+					break
+				}
+			}
+		}
+		r.Count("wide_levels_checked", int64(len(wide)))
+	}
 	// ---- there and back
 	for _, sl := range []sql.IsolationLevel{sql.LevelReadUncommitted, sql.LevelReadCommitted, sql.LevelRepeatableRead, sql.LevelSerializable} {
 		a, err := dblib.ASEIsolationLevelFromGo(sl)
